@@ -184,6 +184,8 @@ var c11Versions = []c11Lines{
 	{"8", []string{"8"}},
 	{"absent", nil},
 	{"13-in-list", []string{"13, 8"}},
+	{"leading-zero", []string{"013"}}, // numerically 13, not the value "13"
+	{"signed", []string{"+13"}},
 }
 
 var c11Keys = []c11Lines{
